@@ -182,6 +182,8 @@ def rule_R3(ck, rule="R3"):
         for k, p in enumerate(pl.params):
             if p.kind != "P":
                 base.add(c_cmp("eq", simplify(fv[k][1], base), simplify(fw[k][1], base)))  # "of equal field sizes"
+        # the two references denote different elements (of different vectors)
+        base.add(c_not(c_cmp("eq", simplify(fv[0][0], base), simplify(fw[0][0], base))))
         base.saturate()
         W = writes(tu, fn)
         rec.count("write_effects", len(W))
@@ -225,13 +227,17 @@ def rule_R3(ck, rule="R3"):
                 W = [w for w in Wall if w["root"] == side_arg]
                 addr, ln, nbytes = fd[k]
                 saddr = fs[k][0]
-                label = "%s:%s-field" % (fn.replace("r_", ""), "trivial" if p.trivial else "nontrivial")
-                if not p.trivial:
+                # a type with trivial copy operations but its own move operations is bytewise for copies only
+                nontriv = (not p.trivial) and not (p.vt in TRIVIAL_COPY_ONLY and m.get("direction") == "copy")
+                label = "%s:%s-field" % (fn.replace("r_", ""), "trivial" if not nontriv else "nontrivial")
+                if nontriv:
                     # the value type's own assignment, once, from the corresponding field of the other side
                     hits = [w for w in W if w["kind"] in ("ASSIGN_COPY", "ASSIGN_MOVE") and w["dst"] is not None and base.is_zero(S(w["dst"] - addr))]
                     good = [w for w in hits if w["kind"] == want_kind and w["n"] is not None and base.is_zero(S(w["n"] - nbytes))]
                     if m["kind"] == "assign":
                         good = [w for w in good if w["src"] is not None and base.is_zero(S(w["src"] - saddr))]
+                    for w in good[:1]:
+                        check_unconditional(tu, fn, rec, rule, base, w, nbytes, label, "the assignment of non-trivial field %d of %s[...]" % (k, side))
                     ok = len(good) == 1 and len(hits) == 1
                     rec.ob(rule + "n", ok, {"config": tu.cfg, "witness": fn, "obligation": "field %d of %s: one %s over all its items" % (k, side, want_kind)})
                     if not ok:
@@ -273,6 +279,7 @@ def rule_R3(ck, rule="R3"):
                     rec.finding(rule + "t", "%s:not-written" % label, "%s: no write covers trivial field %d of %s[...] (%s bytes at %s)" % (
                         fn, k, side, show(nbytes)[:60], show(addr)[:100]), config=tu.cfg)
                     continue
+                check_unconditional(tu, fn, rec, rule, base, cover[0], nbytes, label, "the write covering trivial field %d of %s[...]" % (k, side)) if cover else None
                 # source of the covering write (copies and dense segment writes): same offset in the other operand
                 srcd = [w for w in cover if w.get("src") is not None]
                 for w in srcd[:1]:
@@ -288,6 +295,30 @@ def rule_R3(ck, rule="R3"):
                     else:
                         rec.count("undecided")
             W = Wall
+
+
+TRIVIAL_COPY_ONLY = {"objtm"}
+
+
+def check_unconditional(tu, fn, rec, rule, base, w, nbytes, label, what):
+    """R3g: the write happens whenever the field is non-empty - in particular it does not depend on the values
+    of the operands (a comparison result, a loaded datum)"""
+    g = w.get("guard")
+    if g is None and w.get("ev") is not None:
+        g = w["ev"].guard
+    if g is None or g == TRUE:
+        rec.ob(rule + "g", True, None)
+        return
+    f = base.copy()
+    f.add(c_cmp("ult", ZERO, simplify(nbytes, base)))
+    from .logic import simplify_cond
+    f.add(c_not(simplify_cond(g, base)))
+    from .rules_cmp import refresh
+    bad = not (f.infeasible() or refresh(f).infeasible())
+    rec.ob(rule + "g", not bad, None)
+    if bad:
+        rec.finding(rule + "g", "%s:conditional-write" % label,
+                    "%s: %s is skipped when !(%s) although the field is not empty" % (fn, what, show_cond(g)[:300]), config=tu.cfg)
 
 
 def S0(facts, t):
